@@ -26,9 +26,9 @@ def _read(ctx, name):
     return l
 
 
-def evaluate(ctx):
+def evaluate(ctx, args=()):
     cov = {"evaluations": 0, "distinct_nontrivial": 0}
-    rc, out = ctx.harness("c08", [], timeout=2400)
+    rc, out = ctx.harness("c08", list(args), timeout=2400)
     if rc != 0:
         return False, ["harness failed rc=%s: %s" % (rc, (out or "")[-1500:])], cov
     rc2, err = ctx.driver("c08", "cases.txt", "model.txt", timeout=1200)
@@ -76,7 +76,7 @@ def evaluate(ctx):
     # a best-effort failure that surfaces, or a faulted run diverging before the fault, is a model/impl
     # difference (not a violation of the property): report through S2
     for n in notes:
-        if n.startswith("a failed best-effort write made") or n.startswith("faulted run diverges"):
+        if n.startswith(("a failed best-effort write made", "faulted run diverges", "harness worker panicked", "harness inconsistency")):
             s2.append(n[:700])
     return True, s2, cov
 
@@ -94,11 +94,11 @@ def run(ctx):
     ok, s2, cov = evaluate(ctx)
     searched = None
     if (not s1["ok"] or s2) and not ctx.violations:
-        seed0, tier0 = ctx.seed, ctx.tier
-        ctx.seed, ctx.tier = seed0 * 7919 + 13, "thorough"
-        ok2, s2b, cov2 = evaluate(ctx)
-        ctx.seed, ctx.tier = seed0, tier0
-        searched = "re-ran the fault enumeration at thorough budget with seed %d: %d faulted runs, %d violations found" % (
+        seed0 = ctx.seed
+        ctx.seed = seed0 * 7919 + 13
+        ok2, s2b, cov2 = evaluate(ctx, ["search"])
+        ctx.seed = seed0
+        searched = "re-ran the fault enumeration with a 4x budget and seed %d: %d faulted runs, %d violations found" % (
             seed0 * 7919 + 13, cov2.get("evaluations", 0), len(ctx.violations))
     cov["rule"] = ("one evaluation = one faulted run of a history (history, index k of the failing backend call, once/permanent, "
                    "torn or clean failed write) with all S3 checks and 2 reopened images; all are distinct triples and non-trivial "
